@@ -5,6 +5,7 @@
   R-C16-status-match     get_status_result: a non-SKIP expectation is met iff some definition has that status; a SKIP
                          expectation is never met when a definition has a non-SKIP status and is decided only after all
                          definitions were looked at
+                         (R-C16-same-core also: the plain and the structured `--dir` handlers parse a rules file under the same name)
   R-C16-buckets          per rule and test case: no expectation => skipped bucket only (never failed); matched => passed;
                          unmatched => failed (structured and plain reporter)
   R-C16-grouping         get_by_rules appends every top-level RuleCheck record to the list of its rule name and never overwrites an entry
@@ -504,7 +505,7 @@ def directory_naming(ctx, cr):
             ctx.lost(rule, rule + ":directory-naming", k)
             return
         names = set()
-        unit = [kk for kk in cr.fns if kk == k or kk.startswith(k + "::{closure")]
+        unit = [kk for kk in flow.unit_functions(cr, k, ("commands::test",), depth=2) if kk in cr.fns]
         for kk in unit:
             fx = cr.fns[kk]
             for bi, t in M.iter_calls(fx):
